@@ -312,7 +312,8 @@ DRIVE_ARGS = ['0', '1', '2', '3', '4', '510', '511', '1022', '-1', '4294967295',
 NAMES = ['F0', '$.F0', ':0.$.F0', ':2.$.F1', 'X', '', '.', '..', ':', ':0', ':0.', ':0..', '$.', '#.*', '*', ':0A.$.F0',
          ':99999999999999999999.$.X', 'A.B.C', 'averyveryverylongname', '-x', '--binary', ':-1.$.X', '\x80', '$.\xff']
 WILDS = ['#.*', '*', '*.*', ':0.#.*', ':2.*', '#', '', '.', '*.', '^', '[', ']', '\\', '(', ':0A.#.*', ':1.#.*', 'F#', '$.*',
-         ':0.$.F*', '#.#######', '########', ':x.*', ':.*', '*.*.*']
+         ':0.$.F*', '#.#######', '########', ':x.*', ':.*', '*.*.*', ':x.*', ':.*', ':0$.*', ':0', ':0A', ':0*',
+         ':99999999999999999999.*', ':4294967296.$.*', ':0.', ':0..', ':0.$', ':0.$.']
 
 
 def command_line(rng, info=None):
